@@ -191,6 +191,24 @@ Theorem C15_rate_limited_iff_empty : forall c rc ini b s j hint,
   (snd (fst (route c s j hint)) = Limited <-> balance (refresh rc b (f_now s)) = 0).
 Proof. exact route_limited_iff. Qed.
 
+(* (F6) the factory oracle on the model's own runs, clause by clause.  Proved: the clauses
+   hooks_order and drain_refuses accept EVERY run of the model (job ids pairwise distinct, as the
+   generators produce them), so they can never raise an alarm on model-conforming behaviour. *)
+Theorem C15_factory_oracle_sound_partial : forall c ops,
+  ops <> [] -> NoDup (map jid (jobs_of ops)) ->
+  ck_hooks (model_windows c ops) = true /\ ck_drain_refuses (model_windows c ops) = true.
+Proof.
+  intros c ops H1 H2. split; [exact (oracle_hooks_sound c ops H1)|exact (oracle_drain_refuses_sound c ops H2)].
+Qed.
+(* OPEN: forall c ops, ops <> [] -> NoDup (map jid (jobs_of ops)) -> check_C15_factory c (model_windows c ops) = true.
+   Missing for the other seven clauses (discard_once, queue_bound, shed_identity, reject_reported,
+   rate_window, drain_finishes_then_stops, resize_converges): an invariant tying the event log to
+   the state (every accepted job without a start/discard event sits in the factory queue or in
+   exactly one worker queue, ids in the state are ids dispatched so far) -- the job-conservation
+   argument.  The state-level theorems they rest on are (F1)-(F5) above; these clauses are
+   validated on every check run against the model's own traces (model = implementation view and
+   oracle accepts), and ex_oracle_accepts_model below. *)
+
 (* ---- statement pins ---- *)
 Check (C15_bucket_cap : forall c initial now ops1 ops2,
   balance (run c (new c initial now) ops1) <= maxb c
@@ -313,5 +331,6 @@ Print Assumptions C15_drain_refusal_shape.
 Print Assumptions C15_drain_stops_when_idle.
 Print Assumptions C15_no_stop_without_drain.
 Print Assumptions C15_hooks_order.
+Print Assumptions C15_factory_oracle_sound_partial.
 Print Assumptions C15_bucket_reject_reported.
 Print Assumptions C15_rate_limited_iff_empty.
